@@ -436,3 +436,41 @@ func Verif_C01_link_lost_at_any_stage() {
 	verifapi.Assert("route-falls-back-to-the-remaining-path", verifapi.All(s.routingTable["X"] == "B", s.routingPathCosts["X"] == 2))
 	verifapi.Assert("no-lock-left-held", verifapi.HeldLocks() == 0)
 }
+
+// Verif_C01_own_links_survive_updates_that_omit_them: A is directly connected to X and to C (both
+// sessions up). An update of X that does not list A yet (X flooded it just before it accepted the link)
+// arrives through C, newer than what A knew of X. A's own adjacency is A's business: A still counts
+// the link A-X, and - X being a connected neighbour - still routes to X directly at the link cost.
+func Verif_C01_own_links_survive_updates_that_omit_them() {
+	n := verifNetceptor("A")
+	s := n.s
+	cost := verifapi.Float()
+	verifapi.Assume(verifapi.All(cost > 0, cost < 2))
+	n.verifConn("X", cost)
+	n.verifConn("C", 1)
+	s.knownConnectionCosts["A"] = map[string]float64{"X": cost, "C": 1}
+	s.knownConnectionCosts["X"] = map[string]float64{"A": cost, "C": 1}
+	s.knownConnectionCosts["C"] = map[string]float64{"A": 1, "X": 1}
+	s.knownNodeInfo["X"] = &nodeInfo{Epoch: 5, Sequence: 1}
+	s.knownNodeInfo["C"] = &nodeInfo{Epoch: 5, Sequence: 1}
+	s.updateRoutingTable()
+	verifapi.Quiesce()
+	verifapi.Assert("direct-route-first", verifapi.All(s.routingTable["X"] == "X", s.routingPathCosts["X"] == cost))
+	s.handleRoutingUpdate(&routingUpdate{NodeID: "X", UpdateID: "older-view", UpdateEpoch: 5, UpdateSequence: 2,
+		Connections: map[string]float64{"C": 1}, ForwardingNode: "C"}, "C")
+	verifapi.Quiesce()
+	s.updateRoutingTable()
+	verifapi.Quiesce()
+	verifapi.Cover("foreign-update-handled")
+	_, own := s.knownConnectionCosts["A"]["X"]
+	verifapi.Assert("own-link-still-in-own-adjacency", own)
+	_, up := s.connections["X"]
+	verifapi.Assert("session-untouched", up)
+	// then X's next update over the direct link lists A again
+	s.handleRoutingUpdate(&routingUpdate{NodeID: "X", UpdateID: "current-view", UpdateEpoch: 5, UpdateSequence: 3,
+		Connections: map[string]float64{"C": 1, "A": cost}, ForwardingNode: "X"}, "X")
+	verifapi.Quiesce()
+	s.updateRoutingTable()
+	verifapi.Quiesce()
+	verifapi.Assert("neighbour-routed-directly-at-the-link-cost", verifapi.All(s.routingTable["X"] == "X", s.routingPathCosts["X"] == cost))
+}
